@@ -76,7 +76,7 @@ pub fn view(data: &[u8]) -> c10::ViewCase {
 pub fn slice_op(data: &[u8]) -> c10::OpCase {
     let mut u = Unstructured::new(data);
     let ty = c10::FRAME_TYS[idx(&mut u, 8)];
-    let op = c10::SLICE_OPS[idx(&mut u, 6)];
+    let op = c10::SLICE_OPS[idx(&mut u, 7)];
     let la = idx(&mut u, 300);
     let lb = if idx(&mut u, 2) == 0 { la } else { idx(&mut u, 300) };
     c10::OpCase { ty, op, la, lb, salt: idx(&mut u, 1000) as u32 }
@@ -87,7 +87,7 @@ pub fn fork(data: &[u8]) -> c12::Case {
     let cap = 1 + idx(&mut u, 16);
     let array_storage = idx(&mut u, 2) == 0;
     let int_frames = idx(&mut u, 2) == 0;
-    let variant = [c12::Variant::ByRef, c12::Variant::ByRc, c12::Variant::ResplitRefRef, c12::Variant::ResplitRefRc, c12::Variant::RcDropA, c12::Variant::RcDropB][idx(&mut u, 6)];
+    let variant = [c12::Variant::ByRef, c12::Variant::ByRc, c12::Variant::ResplitRefRef, c12::Variant::ResplitRefRc, c12::Variant::RcDropA, c12::Variant::RcDropB, c12::Variant::CloneThenRef][idx(&mut u, 7)];
     let split_at = idx(&mut u, 200);
     let mut choices = Vec::new();
     while !u.is_empty() && choices.len() < 1000 {
@@ -99,7 +99,7 @@ pub fn fork(data: &[u8]) -> c12::Case {
         }
     }
     let src_len = data.last().filter(|b| **b % 3 == 0).map(|b| *b as u64 / 3 % 40);
-    c12::Case { cap, array_storage, int_frames, variant, choices, split_at, src_len, rb_start: data.len() }
+    c12::Case { cap, array_storage, int_frames, variant, choices, split_at, src_len, rb_start: data.len(), tail: (data.len() % 3) as u64 }
 }
 
 pub fn bus(data: &[u8]) -> c13::Case {
@@ -117,7 +117,7 @@ pub fn bus(data: &[u8]) -> c13::Case {
     }
     // the final input byte decides whether (and where) the Bus handle itself is dropped
     let drop_bus_at = data.last().filter(|b| **b % 4 == 0).map(|b| (*b as usize / 4) * ops.len() / 64);
-    c13::Case { src_len, max_live, ops, drop_bus_at }
+    c13::Case { src_len, max_live, ops, drop_bus_at, tail: (data.len() % 4) as u64 }
 }
 
 pub fn buffered(data: &[u8]) -> c14::Case {
@@ -137,5 +137,5 @@ pub fn buffered(data: &[u8]) -> c14::Case {
             _ => c14::Op::NextFrames(idx(&mut u, cap + 2)),
         });
     }
-    c14::Case { cap, start, prefill, src_len, int_frames, ops, drain }
+    c14::Case { cap, start, prefill, src_len, int_frames, ops, drain, tail: (data.len() % 5) as u64 }
 }
